@@ -1,2 +1,215 @@
-(* Property C07 - statements only (proofs in Proofs/C07.v). Not built yet. *)
-From SC.Model Require Import Base.
+(* Property C07 - numbers print correctly rounded, grouped and signed in every format setting.
+   STATEMENTS ONLY (proofs: Proofs/C07.v).  Model functions: Format.format_number (with
+   Format.group_loop, Format.fract_information, Format.powi10), Format.item_print for INumber,
+   IPercent, IMoney, IDynamicType; at binary64 the renderings are FloatIO.f64_to_fixed ("{:.N}")
+   and FloatIO.f64_to_display ("{}").
+   Reference (Proofs/C07.v): group3 (separator in front of every complete group of three counted
+   from the right), int_part / frac_part (a rendering split at its '.'), spec_print (sign, grouped
+   integer part, decimal separator and fraction; fraction omitted iff there is none, or removal
+   is on and all its digits are zero), money_place.
+   KNOWN FINDING (class C07-double-rounding): format_number takes every digit from the rendering of
+   |x| but the LENGTH of the integer part and the zero-fraction test from a separately rounded copy
+   round(x*10^n)/10^n.  [Inconsistent x n rnd] says the two disagree; outside it the print is the
+   specified one (C07_format_consistent), inside it the print is wrong (C07_inconsistent_refuted). *)
+From SC.Model Require Import Base Num NumF64 FloatIO Types Config Case Chrono Parser Format Run64.
+From SC.Spec Require Import Fixed.
+From SC.Gen Require Import ConfigData.
+From Coq Require Import ZArith Floats.
+From SC.Proofs Require Import C07.
+
+(* ---- grouping, all digit lists of any length, any separator string ---- *)
+Theorem C07_group3 : forall (ds tsep : str),
+  group_loop ds 0 (length ds) (3 - Nat.modulo (length ds) 3) tsep = group3 tsep ds.
+Proof. exact group_loop_group3. Qed.
+
+(* group3 is grouping in threes from the right: up to three digits are left alone, and a block of
+   3k digits at the right end is preceded by exactly one separator; nothing leads or trails *)
+Theorem C07_group3_spec : forall tsep,
+  (forall ds, (length ds <= 3)%nat -> group3 tsep ds = ds) /\
+  (forall a b, a <> [] -> b <> [] -> Nat.modulo (length b) 3 = 0%nat ->
+     group3 tsep (a ++ b) = group3 tsep a ++ tsep ++ group3 tsep b) /\
+  (forall ds, length (group3 tsep ds) = (length ds + length tsep * ((length ds - 1) / 3))%nat) /\
+  (forall ds, group3 [] ds = ds).
+Proof.
+  intro tsep. split; [exact (group3_short tsep)|]. split; [exact (group3_app tsep)|].
+  split; [exact (group3_length tsep)|exact group3_no_sep].
+Qed.
+
+Section WithNum.
+Context {F : Type} {NF : Num F}.
+
+(* ---- the decision table of format_number, any number algebra ---- *)
+Theorem C07_format_structure : forall (x : F) (tsep dsep : str) (digits : N) (rm rnd : bool),
+  format_number x tsep dsep digits rm rnd =
+  match fmt_fract x digits with
+  | None => Panic SITE_FI_FUEL
+  | Some fp =>
+    let ts := length (fmt_trunc_part x digits) in
+    let st := fmt_string x digits rnd in
+    if Nat.ltb (length st) ts then Panic SITE_NTH_UNWRAP
+    else Ok (sign_str x ++ group3 tsep (firstn ts st) ++
+             (if ((0 <? fp) || negb rm) && negb (Nat.eqb ts (length st))
+              then dsep ++ skipn (S ts) st else []))
+  end.
+Proof. exact format_number_structure. Qed.
+
+(* ---- outside the known class the print is the specified one: all values, digits, separator
+        strings, both flags ---- *)
+Theorem C07_format_consistent : forall (x : F) (tsep dsep : str) (digits : N) (rm rnd : bool),
+  ~ Inconsistent x digits rnd ->
+  format_number x tsep dsep digits rm rnd
+  = Ok (spec_print (fltb x f0) tsep dsep rm (fmt_string x digits rnd)).
+Proof. exact format_consistent. Qed.
+
+(* with zero fractions kept, agreement on the length of the integer part is enough *)
+Theorem C07_format_keep_fraction : forall (x : F) (tsep dsep : str) (digits : N) (rnd : bool),
+  len_agree x digits rnd = true -> fmt_fract x digits <> None ->
+  format_number x tsep dsep digits false rnd
+  = Ok (spec_print (fltb x f0) tsep dsep false (fmt_string x digits rnd)).
+Proof. exact format_keep_fraction. Qed.
+
+Theorem C07_inconsistent_decidable : forall (x : F) digits rnd,
+  {Inconsistent x digits rnd} + {~ Inconsistent x digits rnd}.
+Proof. exact Inconsistent_dec. Qed.
+
+(* ---- sign: '-' in front exactly for values below zero ---- *)
+Theorem C07_sign : forall (x : F) tsep dsep digits rm rnd out,
+  format_number x tsep dsep digits rm rnd = Ok out ->
+  starts_minus (fmt_string x digits rnd) = false ->
+  fmt_trunc_part x digits <> [] ->
+  starts_minus out = fltb x f0.
+Proof. exact format_sign. Qed.
+
+(* ---- the same rule renders plain numbers, percentages, money and unit quantities ---- *)
+Theorem C07_print_number : forall (cfg : config F) lang y x,
+  item_print cfg lang y (INumber x Decimal)
+  = format_number x (cf_tsep cfg) (cf_dsep cfg) (nc_digits (cf_number cfg))
+                  (nc_rm (cf_number cfg)) (nc_round (cf_number cfg)).
+Proof. exact print_number. Qed.
+
+Theorem C07_print_percent : forall (cfg : config F) lang y x,
+  item_print cfg lang y (IPercent x)
+  = map_res (fun r => 37%N :: r)
+      (format_number x (cf_tsep cfg) (cf_dsep cfg) (nc_digits (cf_percent cfg))
+                     (nc_rm (cf_percent cfg)) (nc_round (cf_percent cfg))).
+Proof. exact print_percent. Qed.
+
+Theorem C07_print_money : forall (cfg : config F) lang y x code c,
+  currency_by_code cfg code = Some c ->
+  item_print cfg lang y (IMoney x code)
+  = map_res (money_place c)
+      (format_number x (cf_tsep cfg) (cf_dsep cfg) (c_digits c) (nc_rm (cf_money cfg)) (nc_round (cf_money cfg))).
+Proof. exact print_money. Qed.
+
+Theorem C07_print_unit : forall (cfg : config F) lang y x u d,
+  unit_of cfg u = Some d ->
+  item_print cfg lang y (IDynamicType x u)
+  = map_res (fun p => replace_all (s "{value}") p (dt_format d))
+      (format_number x (cf_tsep cfg) (cf_dsep cfg)
+         (match dt_digits d with Some n => n | None => 2%N end)
+         (match dt_rm d with Some b => b | None => true end)
+         (match dt_round d with Some b => b | None => true end)).
+Proof. exact print_unit. Qed.
+
+End WithNum.
+
+(* ---- binary64 ---- *)
+(* the finding: the two roundings disagree and the print is wrong *)
+Theorem C07_inconsistent_refuted :
+  (Inconsistent (v "0.995") 2 true /\ fmt64 "0.995" 2 true true = Ok (s "0") /\ spec64 "0.995" 2 true true = s "0,99") /\
+  (Inconsistent (v "-0.995") 2 true /\ fmt64 "-0.995" 2 true true = Ok (s "-0") /\ spec64 "-0.995" 2 true true = s "-0,99") /\
+  (Inconsistent (v "999999.995") 2 true /\ fmt64 "999999.995" 2 true true = Ok (s "9.999.99.")
+     /\ spec64 "999999.995" 2 true true = s "999.999,99") /\
+  (Inconsistent (v "1e21") 2 true /\ fmt64 "1e21" 2 true true = Ok (s "100.000.000.000.000.000.000")
+     /\ spec64 "1e21" 2 true true = s "1.000.000.000.000.000.000.000") /\
+  (Inconsistent (v "99.995") 2 false /\ fmt64 "99.995" 2 false false = Ok (s "99.,95") /\ spec64 "99.995" 2 false false = s "99,995") /\
+  (Inconsistent (v "999.995") 2 false /\ fmt64 "999.995" 2 false false = Ok (s "9.99.,95")
+     /\ spec64 "999.995" 2 false false = s "999,995") /\
+  (Inconsistent (v "5.001") 2 false /\ fmt64 "5.001" 2 true false = Ok (s "5") /\ spec64 "5.001" 2 true false = s "5,001").
+Proof. exact inconsistent_refuted. Qed.
+
+(* ---- "correctly rounded": the rendering "{:.N}" of the executed instance shows, for a finite
+        binary64 (-1)^sg * m * 2^e, the integer nearest to m * 2^e * 10^n, ties to even
+        (Spec/Fixed.v fixed_scaled), printed with the point n places from the right; all floats,
+        all digit counts ---- *)
+Theorem C07_fixed_exact : forall (x : float) (n : N),
+  f64_to_fixed x n =
+  match Prim2SF x with
+  | S754_nan => s_NaN
+  | S754_infinity sg => with_sign sg s_inf
+  | S754_zero sg => with_sign sg (fixed_str 0 (Z.of_N n))
+  | S754_finite sg m e => with_sign sg (fixed_str (fixed_scaled (Zpos m) e (Z.of_N n)) (Z.of_N n))
+  end.
+Proof. exact fixed_exact. Qed.
+
+(* the reference rounding is a nearest integer, the even one at a tie *)
+Theorem C07_round_half_even_nearest : forall num den, 0 < den ->
+  let q := round_half_even num den in
+  2 * Z.abs (num - q * den) <= den /\
+  (2 * Z.abs (num - q * den) = den -> Z.even q = true).
+Proof. exact round_half_even_nearest. Qed.
+
+(* non-vacuity: consistent inputs and their prints (26 rows: ties, values below one unit of the
+   last digit, negative zero, 10^15, the smallest subnormal, 21 integer digits) *)
+Theorem C07_examples : forall r, In r good_rows -> good_row_ok r = true.
+Proof. exact good_rows_ok. Qed.
+
+(* the roundings agree on k/8 (|k| <= 100, every tie at 0..2 digits) for digits 0..9, and on
+   10^e with n digits whenever e + n <= 22, in both rounding settings *)
+Theorem C07_grid_consistent : grid_ok = true.
+Proof. exact grid_consistent. Qed.
+
+(* on binary64 the rendering of a magnitude does not start with '-' and the copy's integer part is
+   not empty (the side conditions of C07_sign), checked family x digits 0..9 *)
+Theorem C07_magnitude_unsigned : forall x n, In x sign_family -> In n digit_range ->
+  starts_minus (fmt_string x n true) = false /\ starts_minus (fmt_string x n false) = false /\
+  fmt_trunc_part x n <> [].
+Proof. exact magnitude_unsigned. Qed.
+
+(* fract_information ends inside the model's fuel (checked family incl. the smallest subnormal) *)
+Theorem C07_fract_terminates : forall x, In x fi_family ->
+  exists z, fract_information x = Some z /\ 0 <= z.
+Proof. exact fract_information_terminates. Qed.
+
+(* every currency of config.json: found by its code, printed with its digits, symbol, placement *)
+Theorem C07_money_table : forall kv, In kv d_currency ->
+  money_row_ok (v "1234567.891") kv = true /\ money_row_ok (v "-0.75") kv = true.
+Proof. exact money_table. Qed.
+
+Theorem C07_money_table_nonempty : (12 <= length d_currency)%nat /\
+  (exists kv, In kv d_currency /\ c_left (snd kv) = true /\ c_space (snd kv) = true) /\
+  (exists kv, In kv d_currency /\ c_left (snd kv) = true /\ c_space (snd kv) = false) /\
+  (exists kv, In kv d_currency /\ c_left (snd kv) = false /\ c_space (snd kv) = true) /\
+  (exists kv, In kv d_currency /\ c_left (snd kv) = false /\ c_space (snd kv) = false).
+Proof. exact money_table_nonempty. Qed.
+
+Theorem C07_wrappers_examples :
+  item_print default_config (s "en") 2026 (IPercent (v "-1234.567")) = Ok (s "%-1.234,57") /\
+  item_print default_config (s "en") 2026 (IMoney (v "1234.5") (s "USD")) = Ok (s "$1.234,50") /\
+  item_print default_config (s "en") 2026 (IMoney (v "1234.5") (s "JPY")) = Ok (165%N :: s "1.234") /\
+  item_print default_config (s "en") 2026 (IMoney (v "1234.5") (s "EUR")) = Ok (s "1.234,50 " ++ [8364%N]) /\
+  item_print default_config (s "en") 2026 (IDynamicType (v "1.5") {| u_group := s "metric-length"; u_index := 7 |})
+    = Ok (s "1,50 Kilometer").
+Proof. exact wrappers_examples. Qed.
+
+Print Assumptions C07_group3.
+Print Assumptions C07_group3_spec.
+Print Assumptions C07_format_structure.
+Print Assumptions C07_format_consistent.
+Print Assumptions C07_format_keep_fraction.
+Print Assumptions C07_inconsistent_decidable.
+Print Assumptions C07_sign.
+Print Assumptions C07_print_number.
+Print Assumptions C07_print_percent.
+Print Assumptions C07_print_money.
+Print Assumptions C07_print_unit.
+Print Assumptions C07_inconsistent_refuted.
+Print Assumptions C07_fixed_exact.
+Print Assumptions C07_round_half_even_nearest.
+Print Assumptions C07_examples.
+Print Assumptions C07_grid_consistent.
+Print Assumptions C07_magnitude_unsigned.
+Print Assumptions C07_fract_terminates.
+Print Assumptions C07_money_table.
+Print Assumptions C07_money_table_nonempty.
+Print Assumptions C07_wrappers_examples.
